@@ -146,6 +146,20 @@ func GenProgram(t *rapid.T, insts []Instance, maxFaults int) *Program {
 			}
 			plan = append(plan, f)
 		}
+		if len(plan) > 0 {
+			// some writes and non-consuming reads happen only in the attempts that fail (see Op.OnlyFaulty)
+			lbl := &p.Labels[len(p.Labels)-1]
+			for j := range lbl.Ops {
+				o := &lbl.Ops[j]
+				in := insts[o.Res]
+				if _, tcp := in.(*TCPSend); tcp {
+					continue // the generator's count of what the receiving end may read assumes every send of a committing attempt
+				}
+				if (o.Kind == OpWrite || !in.Consuming()) && rapid.IntRange(0, 5).Draw(t, "only-in-failing-attempts") == 0 {
+					o.OnlyFaulty = true
+				}
+			}
+		}
 		p.Plan = append(p.Plan, plan)
 	}
 	return p
